@@ -342,3 +342,70 @@ func probeChild(which string) int {
 	}
 	return 0
 }
+
+// timeoutOnce: a trunk whose Read returns os.ErrDeadlineExceeded once, at offset `at` of the incoming stream, and
+// carries on afterwards.
+type timeoutOnce struct {
+	net.Conn
+	mu      sync.Mutex
+	at, n   int
+	failed  bool
+	closedC chan struct{}
+	once    sync.Once
+}
+
+func (t *timeoutOnce) Read(p []byte) (int, error) {
+	t.mu.Lock()
+	if !t.failed {
+		if t.n == t.at && len(p) > 0 {
+			t.failed = true
+			t.mu.Unlock()
+			return 0, os.ErrDeadlineExceeded
+		}
+		if left := t.at - t.n; len(p) > left {
+			p = p[:left]
+		}
+	}
+	t.mu.Unlock()
+	n, err := t.Conn.Read(p)
+	t.mu.Lock()
+	t.n += n
+	t.mu.Unlock()
+	return n, err
+}
+
+func (t *timeoutOnce) Close() error {
+	t.once.Do(func() { close(t.closedC) })
+	return t.Conn.Close()
+}
+
+// probeReadErrorFinal: the trunk Read times out once inside a header (offset 4) / inside a payload (offset 10) and
+// delivers the rest of a good frame afterwards: does the Mux close itself, and is nothing delivered?
+func probeReadErrorFinal() bool {
+	for _, at := range []int{4, 10, 8} {
+		a, b := net.Pipe()
+		t := &timeoutOnce{Conn: b, at: at, closedC: make(chan struct{})}
+		m := multiplex.Multiplex(t)
+		c, err := m.Open(1)
+		if err != nil {
+			return false
+		}
+		frame := []byte{0, 0, 0, 1, 0, 0, 0, 3, 7, 8, 9}
+		go func() { a.Write(frame); a.Write(frame) }()
+		closed := false
+		select {
+		case <-t.closedC:
+			closed = true
+		case <-time.After(400 * time.Millisecond):
+		}
+		var n int
+		var rerr error
+		got := within(func() { n, rerr = c.Read(make([]byte, 8)) })
+		a.Close()
+		m.Close()
+		if !closed || !got || rerr == nil || n != 0 {
+			return false
+		}
+	}
+	return true
+}
